@@ -728,7 +728,10 @@ def gen_trace(seed):
     B = r.choice([2.0, 5.0, 10.0])
     rot = r.choice([2 * math.pi, 1.0, 0.0]) if mode == "custom" else r.choice([2 * math.pi, 1.0])
     bounds = [[-B, B]] * 3 + [[-rot, rot]] * 3
-    origin = [0.0] * 6 if r.random() < 0.4 else [round(r.uniform(-B / 2, B / 2), 3) for _ in range(3)] + [
+    if r.random() < 0.25:
+        # per-axis, asymmetric sampling bounds (the start pose stays inside them)
+        bounds = [[round(-B * r.uniform(0.3, 1.0), 3), round(B * r.uniform(0.3, 1.0), 3)] for _ in range(3)] + [[-rot, rot]] * 3
+    origin = [0.0] * 6 if r.random() < 0.4 else [round(r.uniform(bounds[i][0] / 2, bounds[i][1] / 2), 3) for i in range(3)] + [
         round(r.uniform(-rot / 2, rot / 2), 3) for _ in range(3)]
     iters = pick_weighted(r, [(1, 0.6), (2, 0.6), (r.randint(3, 10), 3.0), (r.randint(11, 60), 4.0),
                               (r.randint(61, 150), 1.2), (r.randint(151, 400), 0.3)])
